@@ -1,5 +1,530 @@
 package main
 
-import "verifharness/internal/vf"
+// C20 — replicated DDL/RBAC requests keep their identity fields and replication stamp.
+//
+// Real code in the loop: ChannelWriter.HandleOpMessagePack / HandleReplicateAPIEvent with readiness tables seeded
+// through droppedObjs (so that partition and collection lists have live and dropped members). Oracle: direct
+// comparison of every recorded parameter struct with the generated source operation (opSpec).
 
-func runC20(tier string) *vf.Run { return vf.NewRun("C20", tier, "exploration") }
+import (
+	"context"
+	"fmt"
+	"sort"
+	"strings"
+
+	"github.com/milvus-io/milvus-proto/go-api/v2/commonpb"
+	"github.com/milvus-io/milvus-proto/go-api/v2/milvuspb"
+	"github.com/milvus-io/milvus-proto/go-api/v2/schemapb"
+	"github.com/milvus-io/milvus/pkg/mq/msgstream"
+
+	"github.com/zilliztech/milvus-cdc/core/api"
+	"github.com/zilliztech/milvus-cdc/core/util"
+
+	"verifharness/internal/vf"
+	"verifharness/internal/wfakes"
+)
+
+type c20Case struct {
+	Idx         int      `json:"case"`
+	Spec        opSpec   `json:"op"`
+	ReplicateID string   `json:"replicate_id,omitempty"`
+	Dropped     []string `json:"dropped_members,omitempty"` // members of Parts / Colls the tables say are dropped
+	Unknown     []string `json:"unknown_members,omitempty"` // members the tables know nothing about (probe)
+}
+
+var scalarTypes = []schemapb.DataType{schemapb.DataType_Bool, schemapb.DataType_Int8, schemapb.DataType_Int16, schemapb.DataType_Int32, schemapb.DataType_Int64,
+	schemapb.DataType_Float, schemapb.DataType_Double, schemapb.DataType_VarChar, schemapb.DataType_JSON, schemapb.DataType_Array,
+	schemapb.DataType_FloatVector, schemapb.DataType_BinaryVector, schemapb.DataType_Float16Vector, schemapb.DataType_BFloat16Vector, schemapb.DataType_SparseFloatVector}
+
+func randPwd(r *randSrc) string {
+	switch r.Intn(4) {
+	case 0:
+		return "" // empty
+	case 1:
+		return "cGFzc3dvcmQ=" // base64
+	case 2:
+		return randName(r.Rand, "not-base64!%&") // not decodable
+	}
+	return randName(r.Rand, "") + "=="
+}
+
+func genC20(seed int64, kind string, idx int) c20Case {
+	r := newRand(seed, "C20/"+kind, idx)
+	ts := uint64(1000 + r.Intn(1<<30))
+	s := opSpec{Kind: kind, DB: []string{"", "default", "d1"}[r.Intn(3)], Ts: ts, ID: int64(idx*4 + 10)}
+	c := c20Case{Idx: idx}
+	pickMembers := func(prefix string) []string {
+		n := 1 + r.Intn(5)
+		var out []string
+		seen := map[string]bool{}
+		for len(out) < n {
+			nm := randName(r.Rand, prefix)
+			if seen[nm] {
+				continue
+			}
+			seen[nm] = true
+			out = append(out, nm)
+			switch r.Intn(5) {
+			case 0, 1:
+				c.Dropped = append(c.Dropped, nm)
+			case 2:
+				c.Unknown = append(c.Unknown, nm)
+			}
+		}
+		return out
+	}
+	switch kind {
+	case "CreateDatabase", "DropDatabase", "AlterDatabase":
+		s.DB = randName(r.Rand, "db")
+		s.Props = randKVs(r.Rand, 3)
+	case "Flush":
+		s.Colls = pickMembers("c")
+	case "CreateIndex":
+		s.Coll, s.Field, s.Index, s.Extra = randName(r.Rand, "c"), randName(r.Rand, "f"), randName(r.Rand, "idx"), randKVs(r.Rand, 4)
+	case "DropIndex":
+		s.Coll, s.Field, s.Index = randName(r.Rand, "c"), randName(r.Rand, "f"), randName(r.Rand, "idx")
+	case "AlterIndex":
+		s.Coll, s.Index, s.Extra = randName(r.Rand, "c"), randName(r.Rand, "idx"), randKVs(r.Rand, 3)
+		if r.Intn(2) == 0 {
+			s.Extra = append(s.Extra, [2]string{api.IndexKeyMmap, []string{"true", "false"}[r.Intn(2)]})
+		}
+	case "LoadCollection":
+		s.Coll, s.Replica = randName(r.Rand, "c"), int32(r.Intn(5))
+		if r.Intn(2) == 0 {
+			s.RGs = []string{randName(r.Rand, "rg"), randName(r.Rand, "rg")}
+		}
+	case "ReleaseCollection":
+		s.Coll = randName(r.Rand, "c")
+	case "LoadPartitions":
+		s.Coll, s.Replica = randName(r.Rand, "c"), int32(r.Intn(5))
+		s.Parts = pickMembers("p")
+		if r.Intn(2) == 0 {
+			s.RGs = []string{randName(r.Rand, "rg")}
+		}
+	case "ReleasePartitions":
+		s.Coll = randName(r.Rand, "c")
+		s.Parts = pickMembers("p")
+	case "CreateCredential":
+		s.User, s.Pwd = randName(r.Rand, "u"), randPwd(r)
+	case "DeleteCredential":
+		s.User = randName(r.Rand, "u")
+	case "UpdateCredential":
+		s.User, s.OldPwd, s.NewPwd = randName(r.Rand, "u"), randPwd(r), randPwd(r)
+	case "CreateRole", "DropRole":
+		s.Role = randName(r.Rand, "role")
+	case "OperateUserRole":
+		s.User, s.Role, s.URType = randName(r.Rand, "u"), randName(r.Rand, "role"), int32(r.Intn(2))
+	case "OperatePrivilege":
+		s.Role, s.Object, s.ObjName, s.Privilege, s.Grantor, s.PrivType = randName(r.Rand, "role"), []string{"Collection", "Global", "User"}[r.Intn(3)], []string{"*", randName(r.Rand, "c")}[r.Intn(2)],
+			[]string{"Insert", "Search", "CreateIndex", "*"}[r.Intn(4)], randName(r.Rand, "g"), int32(r.Intn(2))
+		s.GrantDB = []string{"", "default", "*", "d1"}[r.Intn(4)]
+	case evCreateCollection:
+		s.Coll, s.Desc, s.AutoID, s.DynField = randName(r.Rand, "c"), randName(r.Rand, "desc "), r.Intn(2) == 0, r.Intn(2) == 0
+		s.Shards, s.Consistency = int32(1+r.Intn(8)), int32(r.Intn(5))
+		s.Props = randKVs(r.Rand, 3)
+		if r.Intn(3) == 0 {
+			c.ReplicateID = randName(r.Rand, "rid-")
+		}
+		s.Fields = append(s.Fields, fieldSpec{Name: "pk", Type: int32([]schemapb.DataType{schemapb.DataType_Int64, schemapb.DataType_VarChar}[r.Intn(2)]), PK: true, AutoID: s.AutoID, Desc: randName(r.Rand, "")})
+		if s.Fields[0].Type == int32(schemapb.DataType_VarChar) {
+			s.Fields[0].Params = [][2]string{{"max_length", fmt.Sprint(1 + r.Intn(500))}}
+		}
+		nf := 1 + r.Intn(6)
+		for i := 0; i < nf; i++ {
+			t := scalarTypes[r.Intn(len(scalarTypes))]
+			f := fieldSpec{Name: fmt.Sprintf("f%d_%s", i, randName(r.Rand, "")), Type: int32(t), Desc: randName(r.Rand, "")}
+			switch t {
+			case schemapb.DataType_VarChar:
+				f.Params = [][2]string{{"max_length", fmt.Sprint(1 + r.Intn(65535))}}
+				f.PartKey = r.Intn(4) == 0
+			case schemapb.DataType_Array:
+				f.Elem = int32(schemapb.DataType_Int32)
+				f.Params = [][2]string{{"max_capacity", fmt.Sprint(1 + r.Intn(100))}}
+			case schemapb.DataType_FloatVector, schemapb.DataType_BinaryVector, schemapb.DataType_Float16Vector, schemapb.DataType_BFloat16Vector:
+				f.Params = [][2]string{{"dim", fmt.Sprint(8 * (1 + r.Intn(64)))}}
+			case schemapb.DataType_Int64:
+				f.ClustKey = r.Intn(6) == 0
+			}
+			s.Fields = append(s.Fields, f)
+		}
+		if s.DynField {
+			s.Fields = append(s.Fields, fieldSpec{Name: "$meta", Type: int32(schemapb.DataType_JSON), Dynamic: true})
+		}
+	case evDropCollection:
+		s.Coll = randName(r.Rand, "c")
+	case evCreatePartition, evDropPartition:
+		s.Coll, s.Parts = randName(r.Rand, "c"), []string{randName(r.Rand, "p")}
+	}
+	c.Spec = s
+	return c
+}
+
+func c20Seed(c *c20Case) map[string]map[string]uint64 {
+	t := map[string]map[string]uint64{util.DroppedDatabaseKey: {}, util.DroppedCollectionKey: {}, util.DroppedPartitionKey: {}}
+	s := &c.Spec
+	isIn := func(l []string, x string) bool { return inList(l, x) }
+	for _, cn := range s.Colls {
+		ck, dk := util.GetCollectionInfoKeys(cn, s.DB)
+		switch {
+		case isIn(c.Dropped, cn):
+			t[util.DroppedCollectionKey][dk] = s.Ts + 10
+		case isIn(c.Unknown, cn):
+		default:
+			t[util.DroppedCollectionKey][ck] = 0
+		}
+	}
+	for _, p := range s.Parts {
+		if isEvent(s.Kind) {
+			break
+		}
+		ck, dk := util.GetPartitionInfoKeys(p, s.Coll, s.DB)
+		switch {
+		case isIn(c.Dropped, p):
+			t[util.DroppedPartitionKey][dk] = s.Ts + 10
+		case isIn(c.Unknown, p):
+		default:
+			t[util.DroppedPartitionKey][ck] = 0
+		}
+	}
+	return t
+}
+
+func kvEq(a []*commonpb.KeyValuePair, b [][2]string) bool {
+	if len(a) != len(b) {
+		return false
+	}
+	for i := range a {
+		if a[i].GetKey() != b[i][0] || a[i].GetValue() != b[i][1] {
+			return false
+		}
+	}
+	return true
+}
+
+func kvStr(a []*commonpb.KeyValuePair) string {
+	var s []string
+	for _, kv := range a {
+		s = append(s, kv.GetKey()+"="+kv.GetValue())
+	}
+	return "[" + strings.Join(s, " ") + "]"
+}
+
+func kvMap(a []*commonpb.KeyValuePair) map[string]string {
+	m := map[string]string{}
+	for _, kv := range a {
+		m[kv.GetKey()] = kv.GetValue()
+	}
+	return m
+}
+
+func specMap(a [][2]string) map[string]string {
+	m := map[string]string{}
+	for _, kv := range a {
+		m[kv[0]] = kv[1]
+	}
+	return m
+}
+
+func mapEq(a, b map[string]string) bool {
+	if len(a) != len(b) {
+		return false
+	}
+	for k, v := range a {
+		if w, ok := b[k]; !ok || w != v {
+			return false
+		}
+	}
+	return true
+}
+
+func strsEq(a, b []string) bool {
+	if len(a) != len(b) {
+		return false
+	}
+	for i := range a {
+		if a[i] != b[i] {
+			return false
+		}
+	}
+	return true
+}
+
+func minus(l, drop []string) []string {
+	var out []string
+	for _, x := range l {
+		if !inList(drop, x) {
+			out = append(out, x)
+		}
+	}
+	return out
+}
+
+func runC20(tier string) *vf.Run {
+	run := vf.NewRun("C20", tier, "exploration")
+	run.Rule = "case = one operation of one of the 22 kinds (18 op-message types, 4 API events) with randomly filled identity fields (names over a small alphabet with non-ASCII letters, index extra params, partition / collection lists of 1-5 members each live, dropped or unknown to the readiness tables, replica numbers, resource groups, user/role/privilege tuples, password strings of 4 encodings, collection schemas of 2-8 fields over 15 data types, shard numbers, consistency levels, properties, replicate id on/off), delivered to a fresh writer whose tables are seeded accordingly; plus malformed packs (no message, two messages of supported kinds, each of several unsupported types). Non-trivial = a case that reached the downstream or was a malformed pack; distinct by (kind, #live/#dropped/#unknown members, replicate id)."
+	run.Assumptions = []string{
+		"the recording handler accepts every call, so members unknown to the tables are probed, found and kept",
+		"op-message packs are built as the replicate-channel consumer builds them: one end position whose timestamp equals the message's timestamp",
+		"the user-defined schema is compared on what milvus-sdk-go's entity.Schema can carry (name, description, auto id, dynamic flag; per field: name, primary key, auto id, description, data type, type params, dynamic, partition key, clustering key, element type)",
+		"identity fields not named by the statement (database properties, resource groups of LoadPartitions, force-drop flag) are not compared; LoadPartitions requests rebuilt without their resource groups are counted as unspecified_load_partitions_resource_groups_dropped",
+	}
+	n := run.Pick(300, 3000)
+	var kinds []string
+	kinds = append(kinds, opMsgKinds...)
+	kinds = append(kinds, eventKinds...)
+	for _, kind := range kinds {
+		for i := 0; i < n; i++ {
+			c := genC20(run.Seed, kind, i)
+			if i == 0 && (kind == "LoadPartitions" || kind == evCreateCollection) {
+				run.Sample(c)
+			}
+			c20One(run, &c)
+		}
+	}
+	c20Malformed(run)
+	for _, k := range kinds {
+		run.Floor("kind_"+k, run.Pick(300, 3000)/3)
+	}
+	run.Floor("lists_with_dropped_members", 50)
+	run.Floor("lists_all_dropped", 5)
+	run.Floor("lists_with_unknown_members", 50)
+	run.Floor("create_collection_with_replicate_id", 10)
+	run.Floor("malformed_no_message", 1)
+	run.Floor("malformed_two_messages", 10)
+	run.Floor("malformed_unsupported_type", 3)
+	return run
+}
+
+func c20One(run *vf.Run, c *c20Case) {
+	run.Eval(1)
+	s := &c.Spec
+	kind := s.Kind
+	h := &wfakes.Handler{}
+	w, err := newWriter(h, wcfg{ReplicateID: c.ReplicateID, Dropped: c20Seed(c)})
+	if err != nil {
+		run.Inconclusive(err.Error())
+		return
+	}
+	bad := func(what, desc string) {
+		run.Violate("C20/"+kind+"/"+what, fmt.Sprintf("case %d %s: %s", c.Idx, kind, desc), c)
+	}
+	spec := *s
+	ckpt, derr := deliver(w, &spec)
+	calls := h.Calls()
+	np := nonProbe(calls)
+	members := s.Parts
+	if kind == "Flush" {
+		members = s.Colls
+	}
+	live := members
+	listKind := kind == "Flush" || kind == "LoadPartitions" || kind == "ReleasePartitions"
+	if listKind {
+		live = minus(members, c.Dropped)
+		if len(c.Dropped) > 0 {
+			run.Count("lists_with_dropped_members", 1)
+		}
+		if len(c.Unknown) > 0 {
+			run.Count("lists_with_unknown_members", 1)
+		}
+	}
+	if derr != nil {
+		bad("error-without-fault", fmt.Sprintf("returned %v with an all-accepting downstream (calls %s)", derr, names(calls)))
+		return
+	}
+	if listKind && len(live) == 0 {
+		run.Count("lists_all_dropped", 1)
+		run.Count("kind_"+kind, 1)
+		if len(np) != 0 {
+			bad("call-although-every-member-dropped", fmt.Sprintf("every member of %v is dropped according to the tables, yet [%s] was called", members, names(np)))
+		}
+		return
+	}
+	if len(np) != 1 || np[0].Kind != callKindOf[kind] {
+		bad("not-exactly-one-request-of-its-kind", fmt.Sprintf("expected exactly one %s request, got [%s]", callKindOf[kind], names(np)))
+		return
+	}
+	run.Count("kind_"+kind, 1)
+	run.Nontrivial(fmt.Sprintf("%s|%d/%d/%d|rid=%v", kind, len(live), len(c.Dropped), len(c.Unknown), c.ReplicateID != ""))
+	call := np[0]
+	if !isEvent(kind) && string(ckpt) != string(posID(s.ID)) {
+		// not in the statement; recorded only
+		run.Count("checkpoint_differs_from_end_position", 1)
+	}
+	// ---- replication stamp ----
+	ri := call.Base.GetReplicateInfo()
+	if !ri.GetIsReplicate() {
+		bad("not-marked-as-replication", fmt.Sprintf("request Base.ReplicateInfo = %v", ri))
+	}
+	if ri.GetMsgTimestamp() != s.Ts {
+		bad("replication-timestamp", fmt.Sprintf("request carries MsgTimestamp %d, the source operation's timestamp is %d", ri.GetMsgTimestamp(), s.Ts))
+	}
+	// ---- identity fields ----
+	diff := func(field string, got, want any) {
+		if fmt.Sprint(got) != fmt.Sprint(want) {
+			bad(field, fmt.Sprintf("%s = %q, source has %q", field, fmt.Sprint(got), fmt.Sprint(want)))
+		}
+	}
+	switch r := call.Req.(type) {
+	case *milvuspb.CreateDatabaseRequest:
+		diff("db-name", r.GetDbName(), s.DB)
+	case *milvuspb.DropDatabaseRequest:
+		diff("db-name", r.GetDbName(), s.DB)
+	case *milvuspb.AlterDatabaseRequest:
+		diff("db-name", r.GetDbName(), s.DB)
+	case *milvuspb.FlushRequest:
+		if !strsEq(r.GetCollectionNames(), live) {
+			bad("collection-names", fmt.Sprintf("request names %v; source %v minus dropped %v = %v", r.GetCollectionNames(), s.Colls, c.Dropped, live))
+		}
+	case *milvuspb.CreateIndexRequest:
+		diff("collection-name", r.GetCollectionName(), s.Coll)
+		diff("field-name", r.GetFieldName(), s.Field)
+		diff("index-name", r.GetIndexName(), s.Index)
+		if !kvEq(r.GetExtraParams(), s.Extra) {
+			bad("extra-params", fmt.Sprintf("request has %s, source %v", kvStr(r.GetExtraParams()), s.Extra))
+		}
+	case *milvuspb.DropIndexRequest:
+		diff("collection-name", r.GetCollectionName(), s.Coll)
+		diff("field-name", r.GetFieldName(), s.Field)
+		diff("index-name", r.GetIndexName(), s.Index)
+	case *milvuspb.AlterIndexRequest:
+		diff("collection-name", r.GetCollectionName(), s.Coll)
+		diff("index-name", r.GetIndexName(), s.Index)
+		if !kvEq(r.GetExtraParams(), s.Extra) {
+			bad("extra-params", fmt.Sprintf("request has %s, source %v", kvStr(r.GetExtraParams()), s.Extra))
+		}
+	case *milvuspb.LoadCollectionRequest:
+		diff("collection-name", r.GetCollectionName(), s.Coll)
+		diff("replica-number", r.GetReplicaNumber(), s.Replica)
+		if !strsEq(r.GetResourceGroups(), s.RGs) {
+			bad("resource-groups", fmt.Sprintf("request has %v, source %v", r.GetResourceGroups(), s.RGs))
+		}
+	case *milvuspb.ReleaseCollectionRequest:
+		diff("collection-name", r.GetCollectionName(), s.Coll)
+	case *milvuspb.LoadPartitionsRequest:
+		diff("collection-name", r.GetCollectionName(), s.Coll)
+		diff("replica-number", r.GetReplicaNumber(), s.Replica)
+		if !strsEq(r.GetPartitionNames(), live) {
+			bad("partition-names", fmt.Sprintf("request names %v; source %v minus dropped %v = %v", r.GetPartitionNames(), s.Parts, c.Dropped, live))
+		}
+		if !strsEq(r.GetResourceGroups(), s.RGs) {
+			run.Count("unspecified_load_partitions_resource_groups_dropped", 1)
+		}
+	case *milvuspb.ReleasePartitionsRequest:
+		diff("collection-name", r.GetCollectionName(), s.Coll)
+		if !strsEq(r.GetPartitionNames(), live) {
+			bad("partition-names", fmt.Sprintf("request names %v; source %v minus dropped %v = %v", r.GetPartitionNames(), s.Parts, c.Dropped, live))
+		}
+	case *milvuspb.CreateCredentialRequest:
+		diff("username", r.GetUsername(), s.User)
+		diff("password", r.GetPassword(), s.Pwd)
+	case *milvuspb.DeleteCredentialRequest:
+		diff("username", r.GetUsername(), s.User)
+	case *milvuspb.UpdateCredentialRequest:
+		diff("username", r.GetUsername(), s.User)
+		diff("old-password", r.GetOldPassword(), s.OldPwd)
+		diff("new-password", r.GetNewPassword(), s.NewPwd)
+	case *milvuspb.CreateRoleRequest:
+		diff("role-name", r.GetEntity().GetName(), s.Role)
+	case *milvuspb.DropRoleRequest:
+		diff("role-name", r.GetRoleName(), s.Role)
+	case *milvuspb.OperateUserRoleRequest:
+		diff("username", r.GetUsername(), s.User)
+		diff("role-name", r.GetRoleName(), s.Role)
+		diff("type", int32(r.GetType()), s.URType)
+	case *milvuspb.OperatePrivilegeRequest:
+		e := r.GetEntity()
+		diff("role-name", e.GetRole().GetName(), s.Role)
+		diff("object-type", e.GetObject().GetName(), s.Object)
+		diff("object-name", e.GetObjectName(), s.ObjName)
+		diff("privilege", e.GetGrantor().GetPrivilege().GetName(), s.Privilege)
+		diff("grantor", e.GetGrantor().GetUser().GetName(), s.Grantor)
+		diff("db-name", e.GetDbName(), s.GrantDB)
+		diff("type", int32(r.GetType()), s.PrivType)
+	}
+	switch kind {
+	case evCreateCollection:
+		sc := call.Schema
+		if sc == nil {
+			bad("schema", "no schema in the request")
+			break
+		}
+		diff("schema-collection-name", sc.GetName(), s.Coll)
+		diff("schema-description", sc.GetDescription(), s.Desc)
+		diff("schema-auto-id", sc.GetAutoID(), s.AutoID)
+		diff("schema-dynamic-flag", sc.GetEnableDynamicField(), s.DynField)
+		if len(sc.GetFields()) != len(s.Fields) {
+			bad("schema-fields", fmt.Sprintf("%d fields in the request, %d in the source schema", len(sc.GetFields()), len(s.Fields)))
+		} else {
+			for i, f := range sc.GetFields() {
+				w := s.Fields[i]
+				if f.GetName() != w.Name || f.GetIsPrimaryKey() != w.PK || f.GetAutoID() != w.AutoID || f.GetDescription() != w.Desc || int32(f.GetDataType()) != w.Type ||
+					f.GetIsDynamic() != w.Dynamic || f.GetIsPartitionKey() != w.PartKey || f.GetIsClusteringKey() != w.ClustKey || int32(f.GetElementType()) != w.Elem ||
+					!mapEq(kvMap(f.GetTypeParams()), specMap(w.Params)) {
+					bad("schema-fields", fmt.Sprintf("field %d: request has %v, source %+v", i, f, w))
+				}
+			}
+		}
+		diff("shards-num", call.ShardsNum, s.Shards)
+		diff("consistency-level", int32(call.Consistency), s.Consistency)
+		want := specMap(s.Props)
+		if c.ReplicateID != "" {
+			run.Count("create_collection_with_replicate_id", 1)
+			want["replicate.id"] = c.ReplicateID
+		}
+		if !mapEq(kvMap(call.Properties), want) || len(call.Properties) != len(want) {
+			bad("properties", fmt.Sprintf("request has %s, source %v, replicate id %q", kvStr(call.Properties), s.Props, c.ReplicateID))
+		}
+	case evDropCollection:
+		diff("collection-name", call.Coll, s.Coll)
+	case evCreatePartition, evDropPartition:
+		diff("collection-name", call.Coll, s.Coll)
+		diff("partition-name", call.Part, s.Parts[0])
+	}
+}
+
+func c20Malformed(run *vf.Run) {
+	ctx := context.Background()
+	try := func(shape, counter string, pack *msgstream.MsgPack, desc any) {
+		run.Eval(1)
+		h := &wfakes.Handler{}
+		w, err := newWriter(h, wcfg{})
+		if err != nil {
+			run.Inconclusive(err.Error())
+			return
+		}
+		_, derr := w.HandleOpMessagePack(ctx, pack)
+		run.Count(counter, 1)
+		run.Nontrivial("malformed|" + shape)
+		if derr == nil {
+			run.Violate("C20/malformed/"+shape+"/accepted", fmt.Sprintf("a pack with %s (%v) returned no error (calls %s)", shape, desc, names(h.Calls())), desc)
+		}
+		if h.Len() != 0 {
+			run.Violate("C20/malformed/"+shape+"/partially-applied", fmt.Sprintf("a pack with %s (%v) caused downstream calls [%s] (returned %s)", shape, desc, names(h.Calls()), errStr(derr)), desc)
+		}
+	}
+	try("no-message", "malformed_no_message", buildOpPack(100, 7), "no message")
+	// two messages: every ordered pair of a sample of supported kinds, identity fields filled
+	two := []string{"CreateDatabase", "DropDatabase", "CreateRole", "CreateCredential", "CreateIndex", "LoadCollection", "Flush", "OperatePrivilege"}
+	for i, a := range two {
+		for j, b := range two {
+			ca, cb := genC20(run.Seed, a, 9000+i), genC20(run.Seed, b, 9100+j)
+			ca.Spec.Ts, cb.Spec.Ts = 500, 500
+			for _, cn := range ca.Spec.Colls {
+				_ = cn
+			}
+			try("two-messages", "malformed_two_messages", buildOpPack(500, int64(20+i*10+j), buildOpMsg(&ca.Spec), buildOpMsg(&cb.Spec)), []string{a, b})
+		}
+	}
+	for i, k := range []string{"CreateCollectionMsg", "TimeTickMsg", "DropCollectionMsg"} {
+		s := &opSpec{Kind: k, DB: "d1", Coll: "c1", Ts: 300, ID: int64(40 + i)}
+		try("unsupported-type", "malformed_unsupported_type", buildOpPack(300, s.ID, buildOpMsg(s)), k)
+	}
+	// DML types are not op messages either
+	r := newRand(run.Seed, "C20mal", 0)
+	var uid int64 = 9_000_000
+	for i, k := range []string{"Insert", "Delete", "DropPartition", "Import"} {
+		m := genDML(r, k, &uid, 300, "d1", "c1")
+		try("unsupported-type", "malformed_unsupported_type", buildOpPack(300, int64(50+i), m), k)
+	}
+	_ = sort.Strings
+}
